@@ -40,6 +40,20 @@ theorem idxOf_some {p : UInt8 → Bool} : ∀ {s : Bytes} {k : Nat}, idxOf p s =
       | zero => simpa using hb
       | succ j => simpa using h3 j (by omega)
 
+theorem idxOf_none {p : UInt8 → Bool} : ∀ {s : Bytes}, idxOf p s = none → ∀ j, j < s.length → p (s.getD j 0) = false := by
+  intro s
+  induction s with
+  | nil => intro _ j hj; simp at hj
+  | cons b r ih =>
+    intro h j hj
+    simp only [idxOf] at h
+    by_cases hb : p b = true
+    · simp [hb] at h
+    · simp [hb] at h
+      cases j with
+      | zero => simpa using hb
+      | succ j => simpa using ih h j (by simpa using hj)
+
 theorem getD_drop (t : Bytes) (i j : Nat) : (t.drop i).getD j 0 = t.getD (i + j) 0 := by
   simp [List.getD_eq_getElem?_getD]
 
